@@ -49,8 +49,8 @@ META = dict(
     ],
     need=["cmp_M=LR", "cmp_R=Lh", "cmp_M=Fisher", "cmp_LLh=Fisher", "cmp_L=dTh", "cmp_E[dTdT]=M",
           "cmp_energy", "cmp_amend", "cmp_sum", "cmp_freeze", "categorical_batched"],
-    quick=dict(cases=264, workers=8, budget_s=75),
-    thorough=dict(cases=6000, workers=16, budget_s=800),
+    quick=dict(cases=160, workers=8, budget_s=60),
+    thorough=dict(cases=2400, workers=16, budget_s=780),
     design_ref="DESIGN.md §5 C12",
     level_text=("every identity is decided on complete dense matrices of the live objects at generated "
                 "points; exploration of families x containers x noise models x compositions on small "
@@ -410,7 +410,8 @@ def fam_vcst(S, rng):
 
 ND_SINGLE = [(1,), (2,), (2, 1), (2, 2)]
 ND_SINGLE_T = [(1,), (2,), (3,), (2, 1), (2, 2), (2, 3)]
-ND_MULTI = {1: [(1,), (2, 1)], 2: [(2,), (2, 2)]}
+ND_MULTI = {1: [(1,), (2, 1)], 2: [(2,)]}
+ND_MULTI_T = {1: [(1,), (2, 1)], 2: [(2,), (2, 2)]}
 
 
 def fam_ndvcg(S, rng):
@@ -421,7 +422,8 @@ def fam_ndvcg(S, rng):
     else:
         kind = "vdict" if r < 0.9 else "vtuple"
         d = int(pick(rng, [1, 2]))
-        shapes = [pick(rng, ND_MULTI[d]), pick(rng, ND_MULTI[d])]
+        nm_ = buckets(S, ND_MULTI, ND_MULTI_T)
+        shapes = [pick(rng, nm_[d]), pick(rng, nm_[d])]
     d = shapes[0][-1]
     covariance = bool(rng.integers(0, 2))
     pname, pt = _ptype(S, rng)
@@ -587,7 +589,7 @@ def check_base(ck, S, rng, b, p, mats, full=True):
             f"transformation of {cls} does not pull the Euclidean metric back to metric", **wit)
     elif b.trafo == "local":
         pts = b.sigma(p) if full else []
-        if 0 < len(pts) <= 24:
+        if 0 < len(pts) <= (24 if S.get("thorough") else 12):
             acc = 0.0
             for dat in pts:
                 J = H.jac_real(b.make(dat).transformation, p)
@@ -626,10 +628,11 @@ def make_forward(S, rng, b, keys, in_tmpl=None):
     nf = sum(int(np.prod(sizes[k], dtype=int)) for k in allk)
     mask = np.concatenate([np.full(int(np.prod(sizes[k], dtype=int)), float(k in keys)) for k in allk])
     nout = H.tree_real_size(b.dom_tmpl)
+    nz = 16 if nout <= 16 else 32       # fixed inner width: eager kernels are shared between cases
     kind = pick(rng, ["lin", "tanh", "quad", "sin"])
-    W = jnp.asarray(0.6 * rng.standard_normal((nout, nf)) * mask)
+    W = jnp.asarray(0.6 * rng.standard_normal((nz, nf)) * mask)
     W1 = jnp.asarray(0.8 * rng.standard_normal((nf, nf)) * mask)
-    bb = jnp.asarray(0.4 * rng.standard_normal(nout))
+    bb = jnp.asarray(0.4 * rng.standard_normal(nz))
     msk = jnp.asarray(mask)
 
     def f(x):
@@ -642,7 +645,7 @@ def make_forward(S, rng, b, keys, in_tmpl=None):
             z = W @ (feat * jnp.roll(feat, 1)) + 0.3 * (W @ feat) + bb
         else:
             z = jnp.sin(W @ feat) + bb
-        return b.constrain(H.unflat_jax(z, b.dom_tmpl))
+        return b.constrain(H.unflat_jax(z[:nout], b.dom_tmpl))
     return f, dict(model=kind, keys=list(keys))
 
 
@@ -685,6 +688,11 @@ def amended(S, rng, ck, b, keys, chained=False, full=True):
         A = b.lh.amend(g).amend(h)
         f = lambda x: g(h(x))
         fd = dict(fd, chained=True, keys=list(keys))
+    if not full:       # extra summand of a sum: only its observed matrices are needed
+        r = B()
+        r.lh, r.b, r.fd = A, b, fd
+        r.M, r.L, r.R = probe(A, x0, x0, b.tan_tmpl)
+        return r
     y0 = f(x0)
     J = H.jac_real(f, x0)
     mats_in = probe(b.lh, y0, b.dom_tmpl, b.tan_tmpl)
@@ -754,13 +762,15 @@ def check_freeze(ck, S, rng, lh, mats, tan_tmpl, what):
 
 
 # --------------------------------------------------------------------------- case
-COMPS = ["none", "none", "amend", "amend", "amend2", "sum", "sum", "freeze_amend", "freeze_sum"]
+COMPS = ["none", "amend", "sum", "freeze_amend", "none", "amend2", "freeze_sum", "none", "amend", "sum"]
 
 
 def case(ck, i):
     S = ck.state
     rng = ck.rng()
-    comp = COMPS[int(rng.integers(0, len(COMPS)))]
+    # composition cycles with the per-family case counter so that every worker reaches every
+    # composition kind within its first few cases even when the machine is heavily loaded
+    comp = COMPS[(i // len(FAMILIES)) % len(COMPS)]
     # family by case index: with 8 (or 16) workers dealing indices round-robin every worker
     # sees one family only, which bounds the number of eagerly compiled XLA kernels per process
     fname, fam = FAMILIES[i % len(FAMILIES)]
@@ -787,7 +797,7 @@ def _run(ck, S, rng, comp, fam):
             desc["frozen"] = check_freeze(ck, S, rng, r.lh, (r.M, r.L, r.R), b.tan_tmpl, "amend")
         nt = True
     else:
-        nsum = int(rng.integers(2, 4))
+        nsum = 2 if rng.random() < 0.7 else 3
         recs = [amended(S, rng, ck, b, key_subset(rng, must="u"))]
         for _ in range(nsum - 1):
             fam2 = fam if rng.random() < 0.6 else pick(rng, [fam_gauss, fam_poisson])
